@@ -23,7 +23,7 @@ CHECKS = {
    design="5/C04"),
  "C05": dict(
    engine="tvc-sched",
-   technique="stateless model checking of the real code: exhaustive preemption-bounded DFS over thread interleavings (shuttle runtime, own yield-aware scheduler) for every well-formed command script up to length 5-6 (and, in a second dialect with forced-move roots and clocks on the go line, up to length 3-4), plus an abstract-state fixpoint; the scripts are also run on the optimised binary in five modes",
+   technique="stateless model checking of the real code: exhaustive preemption-bounded DFS over thread interleavings (shuttle runtime, own yield-aware scheduler) for every well-formed command script up to length 5-6 (and, in a second dialect with forced-move roots and clocks on the go line, up to length 3-4), plus an abstract-state fixpoint; the scripts are also run on the optimised binary in five modes and, where they contain no stop / quit / unbounded search, as one command-list argument of the binary",
    text="The real Uci command loop (GUI task) and the real search closure spawned by go run under a controlled scheduler; for every well-formed script over a 10-letter alphabet up to the stated length, every schedule within the stated preemption bound is executed; deadlock (no runnable task), livelock (step bound), missing readyok, a go without exactly one bestmove, quit not ending the loop are violations. Failing schedules are replayed twice before being reported. The set of abstract protocol states closes (reported), which extends the verdict to longer histories under a stated assumption.",
    note="shuttle 0.9.3 (sequentially consistent interleavings); std::sync / std::thread of uci/mod.rs, util/sync.rs, time_control.rs re-pointed by the cfg-guarded shim lines; go infinite modelled as a blocking wait at the poll (hook H1); preemption-bounded, not unbounded",
    design="5/C05"),
